@@ -3,7 +3,7 @@
    left operand) is well-formed too, given well-formed arguments - the expression half of "API-reachable values
    cannot make the renderer panic" (C20). *)
 From Coq Require Import String List Ascii ZArith Bool Lia.
-From QRB Require Import Base.Bytes Model.W Model.Values Model.Compile Model.Wfe Model.Handle Model.Api Model.ApiFacts Model.Ctor.
+From QRB Require Import Base.Bytes Model.W Model.Values Model.Compile Model.Wfe Model.Handle Model.Api Model.ApiFacts Model.JsonMap Model.Ctor.
 Import ListNotations.
 Local Open Scope string_scope.
 Local Open Scope list_scope.
@@ -79,6 +79,22 @@ Section Facts.
     all: splitb; try assumption; try reflexivity.
   Qed.
 
+  (* the slice map operations keep "every value is well-formed" *)
+  Lemma set_b_jset (m : list (string * exp)) k v :
+    set_b V wfe m = true -> wfe v = true -> set_b V wfe (jset m k v) = true.
+  Proof.
+    unfold set_b, jset. intros Hm Hv. destruct (has_key k m).
+    - rewrite forallb_forall in *. intros x Hx. apply in_map_iff in Hx. destruct Hx as (e & <- & He).
+      destruct (String.eqb (fst e) k); [exact Hv|exact (Hm e He)].
+    - rewrite forallb_app, Hm. cbn. now rewrite Hv.
+  Qed.
+
+  Lemma set_b_jdel (m : list (string * exp)) k : set_b V wfe m = true -> set_b V wfe (jdel m k) = true.
+  Proof.
+    unfold set_b. induction m as [|e r IH]; cbn; [reflexivity|]. intro H. apply andb_true_iff in H. destruct H as [He Hr].
+    destruct (String.eqb (fst e) k); [exact Hr|]. cbn. now rewrite He, IH.
+  Qed.
+
   Lemma own_handlers_ok recv : wfe recv = true -> Forall C_ok (own_handlers V recv).
   Proof.
     intro Hw. destruct recv; cbn [own_handlers]; try apply Forall_nil.
@@ -93,6 +109,10 @@ Section Facts.
          splitb; try assumption; try reflexivity.
     all: try (unfold hwf; cbn [handle_of self_of wfe]; splitb; try assumption; reflexivity).
     all: try (eapply upd_last_forallb; [exact Eu|assumption|intros x Hx; exact Hx]).
+    all: unfold hwf; cbn [handle_of self_of wfe]; rewrite andb_true_r; cbn [wfe] in Hw.
+    all: try (apply set_b_jdel; assumption).
+    all: try (apply set_b_jset; assumption).
+    all: try (match goal with |- context [if ?c then _ else _] => destruct c end; [apply set_b_jset|]; assumption).
   Qed.
 
   Theorem meth_wfe key recv args r :
@@ -319,6 +339,54 @@ Section Facts.
   Theorem built_wfe e : built e -> wfe e = true.
   Proof. intros [n H]. destruct (builtn_ok n) as [He _]. specialize (He e H). unfold hwf in He. apply andb_true_iff in He. tauto. Qed.
 End Facts.
+
+(* ---------------------------------------------------------------- the JSON object builder calls are the map steps of JsonMap.v *)
+Section JsonCalls.
+  Variable V : Type.
+  Notation exp := (exp V).
+
+  (* the builder call a (non-batch) step of a C16 history stands for *)
+  Definition sop_call (o : sop V) : option (string * list (aarg V)) :=
+    match o with
+    | SoProp k v => Some ("JsonBuildObjectBuilder.Prop", [AStr k; AExp v])
+    | SoPropIf c k v => Some ("JsonBuildObjectBuilder.PropIf", [ABool c; AStr k; AExp v])
+    | SoUnset k => Some ("JsonBuildObjectBuilder.Unset", [AStr k])
+    | SoBatch _ => None
+    end.
+
+  Definition json_call (st : option exp) (o : sop V) : option exp :=
+    match st, sop_call o with
+    | Some e, Some (key, args) => meth key e args
+    | _, _ => None
+    end.
+
+  (* one modelled call on a JSON object value = one step of the insertion-ordered map specification *)
+  Theorem json_meth_is_step (j : jobj V) o key args :
+    sop_call o = Some (key, args) -> meth key (to_exp j) args = Some (to_exp (s_step j o)).
+  Proof.
+    destruct j as [b m]. destruct o as [k v|c k v|k|l]; cbn [sop_call]; intro H; try discriminate; injection H as <- <-.
+    - reflexivity.
+    - destruct c; reflexivity.
+    - reflexivity.
+  Qed.
+
+  Definition plain_sop (o : sop V) : bool := match o with SoBatch _ => false | _ => true end.
+
+  (* any history of Prop / PropIf / Unset calls through the constructor model, starting at builder.JsonBuildObject(b) *)
+  Theorem json_chain_result b (l : list (sop V)) :
+    forallb plain_sop l = true ->
+    fold_left json_call l (ctor "JsonBuildObject" [ABool b]) = Some (to_exp (fold_left s_step l (@mkJ V b []))).
+  Proof.
+    change (@ctor V "JsonBuildObject" [ABool b]) with (Some (to_exp (@mkJ V b []))).
+    generalize (@mkJ V b []). induction l as [|o r IH]; intros j H; cbn [fold_left]; [reflexivity|].
+    cbn [forallb] in H. apply andb_true_iff in H. destruct H as [Ho Hr].
+    assert (E : json_call (Some (to_exp j)) o = Some (to_exp (s_step j o))).
+    { unfold json_call. destruct (sop_call o) as [[key args]|] eqn:Ec.
+      - now apply json_meth_is_step.
+      - destruct o; discriminate. }
+    rewrite E. now apply IH.
+  Qed.
+End JsonCalls.
 
 (* ---------------------------------------------------------------- Args: one slot per value, equal values included *)
 Section ArgsSlots.
